@@ -154,7 +154,9 @@ impl Property for Embed {
         let thorough = rc.tier == Tier::Thorough;
         let fmt = assets::ALL[(rc.idx % 11) as usize];
         let mut ar = rc.rng.fork("asset");
-        let pristine = assets::generate(fmt, &mut ar);
+        // BMFF: two in three start from the variant with every kind of absolute file offset
+        let rich = ar.chance(2, 3);
+        let pristine = if fmt == Fmt::Mp4 && rich { assets::mp4_rich(&mut ar) } else { assets::generate(fmt, &mut ar) };
         // optionally start from an asset that already carries a (real, signed) manifest
         let start_signed = rc.rng.chance(1, 4);
         let mut cur = pristine.clone();
